@@ -1,5 +1,6 @@
 import Hive.Base.Proto
 import Hive.Model.Daemon
+import Hive.Model.DaemonX
 /-!
 # Line protocol of the C20 driver
 
@@ -22,6 +23,9 @@ structure DSt where
   evs : List Ev          -- implementation log, newest first
   nextCall : Nat
   obs : Bool := false    -- `obs on`: every answer of a sequential case is followed by the observable state
+  ctx : Bool := false    -- the stopped context of the extension layer (`StX.ctxDone`)
+  xobs : List XObs := [] -- observations of (ContextStopped, IsStopped) recorded from the implementation, newest first
+  progs : List (Nat × Th) := []  -- per instance: the daemon call its handler makes once it runs (worker kind `a@order`)
 
 def DSt.init : DSt := { seq := false, s := Hive.Daemon.init, finReq := [], evs := [], nextCall := 1000 }
 
@@ -51,15 +55,189 @@ def parseEv : List String → Option Ev
   | ["panic"] => some .panic
   | _ => none
 
+def parseKind : String → Option ObsKind
+  | "seen" => some .seen
+  | "sdret" => some .sdret
+  | "refused" => some .refused
+  | "any" => some .any
+  | _ => none
+
+def parseB : String → Option Bool
+  | "true" => some true
+  | "false" => some false
+  | _ => none
+
+def parseXObs : List String → Option XObs
+  | [k, c, f, tb, te] => do pure ⟨← parseKind k, ⟨← parseB c, ← parseB f⟩, ← tb.toNat?, ← te.toNat?⟩
+  | _ => none
+
+/-- The verdict on an implementation log with its observations of the stopped context: the clauses of
+`Hive/Spec/Daemon.lean` plus `ctx` (`xobsOk`, `Hive/Model/DaemonX.lean`), in the fixed order the harness uses. -/
+def failedX (tr : List Ev) (xs : List XObs) : List String :=
+  let f := failed tr
+  f.filter (· != "crash") ++ (if xobsOk xs then [] else ["ctx"]) ++ f.filter (· == "crash")
+
+/-! ## stable insertion is one of the sorted arrangements -/
+
+/-- Stable insertion into a list sorted by descending order (behind the entries of the same order). -/
+def insDesc (ord : Nat → Int) (i : Nat) : List Nat → List Nat
+  | [] => [i]
+  | y :: ys => if ord y < ord i then i :: y :: ys else y :: insDesc ord i ys
+
+theorem insertEverywhere_mem (x : Nat) : ∀ (a b : List Nat), a ++ x :: b ∈ insertEverywhere x (a ++ b)
+  | [], [] => by simp [insertEverywhere]
+  | [], y :: ys => by simp [insertEverywhere]
+  | y :: a, b => by
+    have ih := insertEverywhere_mem x a b
+    simp only [List.cons_append, insertEverywhere, List.mem_cons, List.mem_map]
+    exact Or.inr ⟨_, ih, rfl⟩
+
+theorem mem_perms_of_perm : ∀ (xs l : List Nat), l.Perm xs → l ∈ perms xs
+  | [], l, h => by
+    have : l = [] := List.Perm.eq_nil h
+    simp [this, perms]
+  | x :: xs, l, h => by
+    have hx : x ∈ l := h.symm.subset (List.mem_cons_self ..)
+    obtain ⟨a, b, rfl⟩ := List.append_of_mem hx
+    have h2 : (a ++ b).Perm xs := (List.perm_middle.symm.trans h).cons_inv
+    have ih := mem_perms_of_perm xs (a ++ b) h2
+    simp only [perms, List.mem_flatMap]
+    exact ⟨a ++ b, ih, insertEverywhere_mem x a b⟩
+
+theorem insDesc_perm (ord : Nat → Int) (i : Nat) : ∀ ys : List Nat, (insDesc ord i ys).Perm (i :: ys)
+  | [] => List.Perm.refl _
+  | y :: ys => by
+    simp only [insDesc]
+    split
+    · exact List.Perm.refl _
+    · exact ((insDesc_perm ord i ys).cons y).trans (List.Perm.swap i y ys)
+
+theorem all_le_insDesc (ord : Nat → Int) (i : Nat) (b : Int) (hi : ord i ≤ b) :
+    ∀ ys : List Nat, ys.all (fun y => decide (ord y ≤ b)) = true → (insDesc ord i ys).all (fun y => decide (ord y ≤ b)) = true
+  | [], _ => by simp [insDesc, hi]
+  | y :: ys, h => by
+    simp only [List.all_cons, Bool.and_eq_true, decide_eq_true_eq] at h
+    simp only [insDesc]
+    split
+    · simp [hi, h.1]; simpa using h.2
+    · simp only [List.all_cons, Bool.and_eq_true, decide_eq_true_eq]
+      exact ⟨h.1, all_le_insDesc ord i b hi ys h.2⟩
+
+theorem sortedDesc_insDesc (ord : Nat → Int) (i : Nat) :
+    ∀ ys : List Nat, sortedDesc ord ys = true → sortedDesc ord (insDesc ord i ys) = true
+  | [], _ => by simp [insDesc, sortedDesc]
+  | y :: ys, h => by
+    simp only [sortedDesc, Bool.and_eq_true] at h
+    simp only [insDesc]
+    split
+    · rename_i hlt
+      simp only [sortedDesc, Bool.and_eq_true, List.all_cons, decide_eq_true_eq]
+      refine ⟨⟨Int.le_of_lt hlt, ?_⟩, h.1, h.2⟩
+      rw [List.all_eq_true] at h ⊢
+      intro z hz
+      have := h.1 z hz
+      simp only [decide_eq_true_eq] at this ⊢
+      exact Int.le_trans this (Int.le_of_lt hlt)
+    · rename_i hge
+      simp only [sortedDesc, Bool.and_eq_true]
+      exact ⟨all_le_insDesc ord i (ord y) (Int.not_lt.mp hge) ys h.1, sortedDesc_insDesc ord i ys h.2⟩
+
+theorem insDesc_mem_sortedPerms (ord : Nat → Int) (i : Nat) (base : List Nat) (h : sortedDesc ord base = true) :
+    insDesc ord i base ∈ sortedPerms ord (base ++ [i]) := by
+  simp only [sortedPerms, List.mem_filter]
+  refine ⟨mem_perms_of_perm _ _ ?_, sortedDesc_insDesc ord i base h⟩
+  exact (insDesc_perm ord i base).trans (List.perm_append_singleton i base).symm
+
+
+/-! ## one successor of a registration without enumerating the arrangements
+
+`register` has one successor per arrangement of the registry that is sorted by descending order (`sortedPerms`: all
+permutations, filtered) — fine for proofs, factorial for an executable driver.  The driver takes the arrangement that
+inserts the new instance behind the entries of its order; `stepFirst_mem` shows that what it executes is a successor
+of the model's step function. -/
+
+def regPre (s : St) (name : Nat) (order : Int) : St :=
+  { setObj s s.n ⟨name, order, .reg, false, false⟩ with
+    n := s.n + 1, wgKeys := if s.wgKeys.contains order then s.wgKeys else s.wgKeys ++ [order] }
+
+def regWith (s : St) (c name : Nat) (order : Int) (l : List Nat) : St :=
+  let s2 := emit (.accept c name s.n) { regPre s name order with regl := l }
+  if s.running then spawn1 s2 s.n else s2
+
+theorem register_eq (s : St) (c name : Nat) (order : Int) (base : List Nat) :
+    register s c name order base =
+      (sortedPerms (ordOf (regPre s name order)) (base ++ [s.n])).map (regWith s c name order) := rfl
+
+def registerFirst (s : St) (c name : Nat) (order : Int) (base : List Nat) : Option St :=
+  if sortedDesc (ordOf (regPre s name order)) base then
+    some (regWith s c name order (insDesc (ordOf (regPre s name order)) s.n base))
+  else (register s c name order base).head?
+
+theorem registerFirst_mem {s s' : St} {c name : Nat} {order : Int} {base : List Nat}
+    (h : registerFirst s c name order base = some s') : s' ∈ register s c name order base := by
+  unfold registerFirst at h
+  by_cases hs : sortedDesc (ordOf (regPre s name order)) base = true
+  · simp only [hs, if_true, Option.some.injEq] at h
+    subst h
+    rw [register_eq]
+    exact List.mem_map.mpr ⟨_, insDesc_mem_sortedPerms _ _ _ hs, rfl⟩
+  · simp only [hs] at h
+    exact List.mem_of_mem_head? h
+
+def bwCritFirst (s : St) (c name : Nat) (order : Int) : Option St :=
+  if s.stopped then some (emit (.refuse c name .stopped) s)
+  else if s.cleared then some (emit (.refuse c name .panic) s)
+  else
+    match findName s name with
+    | some j =>
+      if !s.running then some (emit (.refuse c name .dup) s)
+      else if (s.objs j).flag then some (emit (.refuse c name .running) s)
+      else registerFirst s c name order (s.regl.filter (fun k => (s.objs k).name != name))
+    | none => registerFirst s c name order s.regl
+
+theorem bwCritFirst_mem {s s' : St} {c name : Nat} {order : Int} (h : bwCritFirst s c name order = some s') :
+    s' ∈ bwCrit true s c name order := by
+  unfold bwCritFirst at h
+  unfold bwCrit
+  simp only [Bool.true_and]
+  split at h
+  · rename_i hs; simp only [Option.some.injEq] at h; subst h; simp [hs]
+  · rename_i hs
+    split at h
+    · rename_i hc; simp only [Option.some.injEq] at h; subst h; simp [hs, hc]
+    · rename_i hc
+      simp only [hs, hc, if_false]
+      split at h
+      · split at h
+        · simp only [Option.some.injEq] at h; subst h; simp [*]
+        · split at h
+          · simp only [Option.some.injEq] at h; subst h; simp [*]
+          · simp only [*, if_false]; exact registerFirst_mem h
+      · simp only [*]; exact registerFirst_mem h
+
+/-- The successor the driver takes. -/
+def stepFirst (s : St) : Th → Option (St × Th)
+  | .bw c name order .passed => (bwCritFirst s c name order).map fun s' => (s', .bw c name order .fin)
+  | t => (step true true s t).head?
+
+theorem stepFirst_mem {s : St} {t : Th} {p : St × Th} (h : stepFirst s t = some p) : p ∈ step true true s t := by
+  unfold stepFirst at h
+  split at h
+  · simp only [Option.map_eq_some_iff] at h
+    obtain ⟨s', hs', rfl⟩ := h
+    simp only [step, List.mem_map]
+    exact ⟨s', bwCritFirst_mem hs', rfl⟩
+  · exact List.mem_of_mem_head? h
+
 /-! ## running the model -/
 
 /-- Run one thread, always taking its first successor, until it has none (finished or blocked). -/
 def runThread : Nat → St → Th → St × Th
   | 0, s, t => (s, t)
   | fuel + 1, s, t =>
-    match step true true s t with
-    | [] => (s, t)
-    | (s', t') :: _ => runThread fuel s' t'
+    match stepFirst s t with
+    | none => (s, t)
+    | some (s', t') => runThread fuel s' t'
 
 /-- The worker goroutine that is due to move, if any, and the successor it takes. -/
 def dueWorker (s : St) (finReq : List Nat) : Nat → Option (Nat × Nat)
@@ -102,6 +280,36 @@ def runShutdown : Nat → St → Th → List Nat → St × Bool
         match step true true s' t with
         | [] => (s', false)       -- still blocked: would hang
         | _ => runShutdown fuel s' t finReq
+
+/-- `ShutdownAndWait` on the extension layer (`liftStep`: the body also cancels the stopped context). -/
+def runShutdownX : Nat → StX → Th → List Nat → StX × Bool
+  | 0, x, _, _ => (x, false)
+  | fuel + 1, x, t, finReq =>
+    match t with
+    | .sd _ .fin => (x, true)
+    | _ =>
+      match liftStep x t with
+      | (x', t') :: _ => runShutdownX fuel x' t' finReq
+      | [] =>
+        let x' : StX := ⟨quiesce 10000 x.base finReq, x.ctxDone⟩
+        match liftStep x' t with
+        | [] => (x', false)       -- still blocked: would hang
+        | _ => runShutdownX fuel x' t finReq
+
+/-- Handlers that call back into the daemon (worker kind `a@order`): as soon as the handler of such an instance runs it
+makes its nested call (`ThX.handler i [] [call]`: the call is executed by the same step function, while `pc = run`). -/
+def runNested : Nat → St → List (Nat × Th) → List (Nat × Th) → St × List (Nat × Th)
+  | 0, s, keep, _ => (s, keep)
+  | _, s, keep, [] => (s, keep.reverse)
+  | fuel + 1, s, keep, (i, c) :: rest =>
+    if (s.objs i).pc == .run then
+      let (s1, _) := runThread 10 s c
+      runNested fuel s1 keep rest
+    else runNested fuel s ((i, c) :: keep) rest
+
+def quiesceN (s : St) (finReq : List Nat) (progs : List (Nat × Th)) : St × List (Nat × Th) :=
+  let (s1, p1) := runNested 1000 s [] progs
+  (quiesce 10000 s1 finReq, p1)
 
 def latestInst (s : St) (name : Nat) : Nat → Option Nat
   | 0 => none
@@ -165,11 +373,19 @@ def doOp (d : DSt) : List String → DSt × String
       let (s1, _) := runThread 10 d.s (.bw d.nextCall n o .call)
       let ans := lastAnswer s1
       let fr := if ans == "ok" && k == "x" then i :: d.finReq else d.finReq
-      ({ d with s := quiesce 10000 s1 fr, finReq := fr, nextCall := d.nextCall + 1 }, ans)
+      -- kind `a@c`: the handler registers worker `n + 20` with order `c` as soon as it runs
+      let pr := match k.splitOn "@" with
+        | ["a", c] => match c.toInt? with
+          | some c => if ans == "ok" then d.progs ++ [(i, .bw (d.nextCall + 1) (n + 20) c .call)] else d.progs
+          | none => d.progs
+        | _ => d.progs
+      let (s2, pr2) := quiesceN s1 fr pr
+      ({ d with s := s2, finReq := fr, nextCall := d.nextCall + 2, progs := pr2 }, ans)
     | _, _ => (d, "bad-op")
   | ["start"] =>
     let (s1, _) := runThread 10 d.s (.starter .call)
-    ({ d with s := quiesce 10000 s1 d.finReq }, "ok")
+    let (s2, pr2) := quiesceN s1 d.finReq d.progs
+    ({ d with s := s2, progs := pr2 }, "ok")
   | ["fin", n] =>
     match n.toNat? with
     | some n =>
@@ -184,10 +400,13 @@ def doOp (d : DSt) : List String → DSt × String
   | ["isstopped"] => (d, showBool d.s.stopped)
   -- `ContextStopped()`: cancelled by `shutdown()` right after the stopped flag is stored, before the workers are
   -- stopped; at quiescence it is cancelled exactly when the flag is set
-  | ["ctxstopped"] => (d, showBool d.s.stopped)
+  | ["ctxstopped"] => (d, showBool d.ctx)
+  -- `ContextStopped().Err() != nil` and `IsStopped()`, read in this order
+  | ["ctxflag"] => (d, showBool d.ctx ++ " " ++ showBool d.s.stopped)
   | ["sdw"] =>
-    let (s1, ok) := runShutdown 100000 d.s (.sd d.nextCall .call) d.finReq
-    ({ d with s := quiesce 10000 s1 d.finReq, nextCall := d.nextCall + 1 }, if ok then "ok" else "timeout")
+    let (x1, ok) := runShutdownX 100000 ⟨d.s, d.ctx⟩ (.sd d.nextCall .call) d.finReq
+    ({ d with s := quiesce 10000 x1.base d.finReq, ctx := x1.ctxDone, nextCall := d.nextCall + 1 },
+      if ok then "ok" else "timeout")
   | ["seenlog"] => (d, showSeen d.s)
   | ["end"] => (d, "ok")
   | ["obs", "on"] => ({ d with obs := true }, "ok")
@@ -213,8 +432,12 @@ def stepLine (d : DSt) (toks : List String) : DSt × String :=
     match parseEv rest with
     | some e => ({ d with evs := e :: d.evs }, "ok")
     | none => (d, "bad-ev")
-  | ["verdict"] => (d, verdict d.evs.reverse)
-  | ["check"] => (d, verdict d.evs.reverse)
+  | "xo" :: rest =>
+    match parseXObs rest with
+    | some o => ({ d with xobs := o :: d.xobs }, "ok")
+    | none => (d, "bad-xo")
+  | ["verdict"] => (d, showVerdict (failedX d.evs.reverse d.xobs.reverse))
+  | ["check"] => (d, showVerdict (failedX d.evs.reverse d.xobs.reverse))
   | _ => (d, "bad-op")
 
 end Hive.Daemon
